@@ -7,6 +7,23 @@ ROOT = os.path.dirname(os.path.dirname(os.path.abspath(__file__)))
 ALL = [f"C{k:02d}" for k in range(1, 21)]
 
 CLAIMED = {
+    "C13": dict(
+        text=("TLC explores (Create.tla / MC_Create) all sequences of up to 2-3 create() calls on one file with destinations root / "
+              "group / nested group / sibling and modes w|a, where the environment yields valid chunks, chunks with one invalid "
+              "record of each kind, raises from the iterator, or crashes between any two steps of the writer (prepare group -> "
+              "tables -> chunk... -> indexes+attributes): an unfinished or failed destination is never recognised, every other "
+              "collection is exactly as before (append mode), only complete collections are recognised, a successful call stores "
+              "exactly the records given. Conformance: the real create_cooler is driven by an input iterator that projects the real "
+              "file (h5py) every time the next chunk is requested and at the end, with invalid records of each kind at every chunk "
+              "index and position, iterator failures before every chunk and injected failures in the table/index/attribute "
+              "writers, for six destination set-ups and random histories; TLC steps the model along the recorded points and "
+              "compares the file view at each (stateAsModel) and evaluates the property predicates on the observed files; merge, "
+              "coarsen and unordered creation are run as producers into multi-collection files with injected failures."),
+        design_ref="DESIGN.md section 6 C13, section 4.3",
+        note=("Trusted: TLC, h5py projection. Failures are Python exceptions at step boundaries (each step opens/closes the file), not "
+              "HDF5-level torn writes. A failed re-creation over a previously recognised collection is outside the property's domain."),
+        technique="TLA+ model checking (TLC) of the stepwise writer with crash actions + TLC validation of recorded file states",
+        category="model_checking"),
     "C06": dict(
         text=("TLC checks (Merge.tla) the exact transcription of merge_breakpoints for ALL combined-index shapes (4-5 rows, <=3 records "
               "per row) x buffers (terminates, no index error, strictly increasing from 0, every record consumed, buffer respected "
